@@ -1,6 +1,7 @@
 import Wasp.Model.Broker
 import Wasp.Proofs.Generated
 import Wasp.Proofs.Dist
+import Wasp.Proofs.BrokerA
 /-!
 # C17 — mount points isolate tenants
 
@@ -11,52 +12,83 @@ import Wasp.Proofs.Dist
   whatever the filter ('#', '+/…' included), because the first level is the literal mount point;
 * `C17_send_topic`: every PUBLISH the writer emits to a session carries the stored topic minus that
   session's mount point prefix, and is emitted to that session's connection only;
-* `C17_recipients_same_mount`: the recipients the writer resolves for a stored publish whose topic
+* `C17_recipients_same_mount` (under the invariant that subscriptions are stored under their own filter): the recipients the writer resolves for a stored publish whose topic
   lies in mount point m are sessions that subscribed inside m;
 * `C17_clientid_scoped`: the take-over lookup never returns a session of another mount point, so a
   CONNECT in m₂ never deletes the record of a session in m₁.
 A mount point is well formed when it is non-empty and contains no '/', and is not '+' or '#'.
 -/
 namespace Wasp.Broker
-open Wasp.Dist Wasp.Topic
+open Wasp.Dist Wasp.Topic Wasp.Broker.AgentA
 
 def wfMount (m : String) : Prop := m ≠ "" ∧ '/' ∉ m.toList ∧ m ≠ "+" ∧ m ≠ "#"
 
 theorem C17_prefix_levels (m t : String) (hm : wfMount m) :
-    levels (prefixMountPoint m t) = m :: levels t := by
-  sorry
+    levels (prefixMountPoint m t) = m :: levels t :=
+  levels_prefix m t hm.2.1
 
-theorem C17_trim_prefix (m t : String) : trimMountPoint m (prefixMountPoint m t) = t := by
-  sorry
+theorem C17_trim_prefix (m t : String) : trimMountPoint m (prefixMountPoint m t) = t :=
+  trim_prefix m t
 
 theorem C17_no_cross_match (m₁ m₂ f t : String) (h₁ : wfMount m₁) (h₂ : wfMount m₂) (hne : m₁ ≠ m₂) :
     mqttMatch (levels (prefixMountPoint m₁ f)) (levels (prefixMountPoint m₂ t)) = false := by
-  sorry
+  rw [levels_prefix _ _ h₁.2.1, levels_prefix _ _ h₂.2.1, match_cons_lit _ _ _ _ h₁.2.2.1 h₁.2.2.2]
+  simp [hne]
 
 /-- within one mount point, matching is matching of the client-side names -/
 theorem C17_same_mount_match (m f t : String) (hm : wfMount m) :
     mqttMatch (levels (prefixMountPoint m f)) (levels (prefixMountPoint m t)) = mqttMatch (levels f) (levels t) := by
-  sorry
+  rw [levels_prefix _ _ hm.2.1, levels_prefix _ _ hm.2.1, match_cons_lit _ _ _ _ hm.2.2.1 hm.2.2.2]
+  simp
 
 /-- the take-over lookup is scoped to the mount point -/
 theorem C17_clientid_scoped (st : State) (mount client : String) (s : SessionMD)
     (h : s ∈ sessByClientID st mount client) : s.mount = mount ∧ s.client = client := by
-  sorry
+  simp only [sessByClientID, sessFilter, List.mem_filter, Bool.and_eq_true, beq_iff_eq] at h
+  exact h.2.2
 
 /-- every packet `send` emits goes to the connection of a recipient session, and a PUBLISH carries the
     stored topic minus that session's mount point -/
 theorem C17_send_topic (w : World) (i : Nat) (rcpt : List (String × Int)) (p : Pub) (conn : String) (pk : Pkt)
     (h : (conn, pk) ∈ (w.send i rcpt p).out) (hnew : (conn, pk) ∉ w.out) :
     ∃ sid s, (sid ∈ rcpt.map (·.1)) ∧ (w.node i).sess sid = some s ∧ s.conn = conn ∧
-      ∃ q mid, pk = .publish (trimMountPoint s.mount p.topic) p.payload q p.retain p.dup mid := by
-  sorry
+      ∃ q mid, pk = .publish (trimMountPoint s.mount p.topic) p.payload q p.retain p.dup mid :=
+  send_out i p conn pk rcpt w h hnew
 
-/-- recipients of a publish stored under mount point m subscribed inside m -/
+/-- recipients of a publish stored under mount point m subscribed inside m — this needs the trie invariant
+    "every subscription is stored under its own pattern"; without it the claim is FALSE for an arbitrary `State`: nothing ties the key of a
+    subscription-trie entry to the `pattern` field of the subscriptions stored under it. -/
+theorem C17_recipients_same_mount_counterexample :
+    ¬ ∀ (st : State) (m t : String), wfMount m → ∀ s : Sub, s ∈ subByPattern st (prefixMountPoint m t) →
+      (∃ m' f, wfMount m' ∧ s.pattern = prefixMountPoint m' f) → ∃ f, s.pattern = prefixMountPoint m f := by
+  intro H
+  have hsub : subByPattern { peer := 1, subs := [("a/x", [⟨"s", "b/x", 1, 0, 1, 0⟩])] } (prefixMountPoint "a" "x")
+      = [⟨"s", "b/x", 1, 0, 1, 0⟩] := by decide
+  obtain ⟨f, hf⟩ := H { peer := 1, subs := [("a/x", [⟨"s", "b/x", 1, 0, 1, 0⟩])] } "a" "x"
+    (by unfold wfMount; decide) ⟨"s", "b/x", 1, 0, 1, 0⟩ (by rw [hsub]; exact List.mem_singleton.mpr rfl)
+    ⟨"b", "x", by unfold wfMount; decide, by decide⟩
+  have := congrArg String.toList hf
+  rw [prefix_toList] at this
+  have h1 : ("b/x" : String).toList = ['b', '/', 'x'] := by decide
+  have h2 : ("a" : String).toList = ['a'] := by decide
+  simp only [h1, h2] at this
+  simp at this
+
+/-- the repaired statement: with the trie invariant "every subscription is stored under its own
+    pattern" (part of `Wasp.Dist.SubsInv`, maintained by `subsSet`/`mergeSubs`) -/
 theorem C17_recipients_same_mount (st : State) (m t : String) (hm : wfMount m) (s : Sub)
+    (hkey : ∀ kl ∈ st.subs, ∀ x ∈ kl.2, x.pattern = kl.1)
     (h : s ∈ subByPattern st (prefixMountPoint m t))
     (hp : ∃ m' f, wfMount m' ∧ s.pattern = prefixMountPoint m' f) :
     ∃ f, s.pattern = prefixMountPoint m f := by
-  sorry
+  obtain ⟨m', f, hm', hpat⟩ := hp
+  simp only [subByPattern, List.mem_flatMap, List.mem_filter] at h
+  obtain ⟨kl, ⟨hkl, hmatch⟩, hs, _⟩ := h
+  rw [← hkey kl hkl s hs, hpat] at hmatch
+  by_cases e : m' = m
+  · subst e; exact ⟨f, hpat⟩
+  · rw [C17_no_cross_match m' m f t hm' hm e] at hmatch
+    exact absurd hmatch (by simp)
 
 example : mqttMatch (levels (prefixMountPoint "tenantA" "#")) (levels (prefixMountPoint "tenantB" "x/y")) = false ∧
     mqttMatch (levels (prefixMountPoint "tenantA" "+/y")) (levels (prefixMountPoint "tenantA" "x/y")) = true ∧
